@@ -135,7 +135,9 @@ func (e *SeqArrowExpr) Eval(ctx context.Context, local Scope) (_ Value, err erro
 					"%s lhs must be an indexed type, not %s", e.op, ValueTypeAsString(value)), e, local)
 			}
 			at, has := t.Get("@")
-			if !has {
+			// Exactly (@: _, x: _): a lone @ has no value to transform and further
+			// attributes would be dropped.
+			if !has || t.Count() != 2 {
 				return nil, WrapContextErr(errors.Errorf(
 					"%s lhs must be an indexed type, not %s", e.op, ValueTypeAsString(value)), e, local)
 			}
